@@ -19,6 +19,7 @@ func init() {
 			"R1 the value sent on the write queue derives, by slicing only, from a pool buffer obtained with pbytes.Get in the same activation - or from a parameter only on the clone==false branch, in which case every caller passes either clone=true or a fresh pool buffer it never touches again (ownership transfer); so a caller's slice never reaches the queue; " +
 			"R2 the copy into the fresh buffer takes the whole payload and its count is compared; R3 in the sender every pbytes.Put of a dequeued packet is preceded on every path by the transport.Writev of its batch, and each Put receives a pointer allocated in the same loop iteration (no pointer shared between recycled packets); " +
 			"R4 every other pbytes.Put recycles a buffer that was never handed to an enqueue on that path; R5 the synchronous branch hands the caller's slice only to the transport call and stores it nowhere. " +
+			"ALSO: recycle only packets dequeued in this round; every pbytes.Put in the repository returns a buffer of the same activation; scratch lists disjoint; wrappers only read the batch; nothing derived from a pooled object is returned after its Put (deferred included). " +
 			"DOES NOT DECIDE: what a user Transport does with the slice after returning, merge offsets of the vectored path, sync.Pool semantics (trusted).",
 		Assumptions: []string{"sync.Pool hands an object to one getter", "transport.Write*/Writev have consumed or copied the slice when they return"},
 		Run:         runC10,
@@ -884,7 +885,6 @@ func runScratchDisjoint(c *core.Ctx, e *ev, R string) {
 		c.OK(R, "scratch-lists", "", "no allocation in the repository is stored into the channel's slice fields")
 	}
 }
-
 
 // isPoolPut: in (a call or a defer) returns an object to one of the typed pools.
 func isPoolPut(in ssa.Instruction) bool {
